@@ -237,7 +237,8 @@ def run_world(ctx, case):
     length, circular = case["L"], case["circular"]
     try:
         record = WG.build(case)
-    except Exception as err:  # pylint: disable=broad-except
+    except (ValueError, AssertionError) as err:
+        # the layout is refused while the record is formed (candidate / region formation is C05's and C06's subject)
         ctx.count("skip:world-formation-raised")
         ctx.count("skip:world-formation-raised:" + type(err).__name__)
         return 0
